@@ -1,3 +1,4 @@
+#![allow(unreachable_pub, dead_code, missing_docs, unused_imports, unused_variables, unused_mut, static_mut_refs, clippy::all)]
 // Kani harnesses for iroh/src/socket/transports/ip.rs (C19: which bound socket may carry a datagram).
 use super::*;
 use std::net::{Ipv4Addr, Ipv6Addr};
